@@ -1,4 +1,7 @@
 import PolyVerif.Driver.C11
+import PolyVerif.Driver.C12
+import PolyVerif.Driver.C04
+import PolyVerif.Driver.C05
 /-
 `polymodel` — the line-protocol driver.
   polymodel render <prop>                 : stdin = abstract cases, stdout = harness requests
@@ -8,7 +11,10 @@ Imports models, specs and regenerated tables only (no proof module, no Mathlib).
 open PolyVerif
 
 def drivers : List (String × PropDriver) := [
-  ("C11", Driver.C11.driver)
+  ("C11", Driver.C11.driver),
+  ("C12", Driver.C12.driver),
+  ("C04", Driver.C04.driver),
+  ("C05", Driver.C05.driver)
 ]
 
 def stripNl (cs : List Char) : List Char :=
